@@ -36,7 +36,7 @@ Lemma drop_wrapper_spawns s s' :
   /\ existsb waiting (jobs s) = false.
 Proof.
   cbn [step]. intros H. destruct (wrapper_alive s && negb (existsb waiting (jobs s))) eqn:E; [|discriminate].
-  apply andb_prop in E. destruct E as [Ea Ew]. inversion H; subst; clear H. sp.
+  apply andb_prop in E. destruct E as [Ea Ew]. inversion H; subst; clear H. ssp.
   repeat split; try assumption.
   - rewrite nth_snoc, Nat.eqb_refl. reflexivity.
   - destruct (existsb waiting (jobs s)); [discriminate|reflexivity].
@@ -60,7 +60,7 @@ Lemma async_frame s l s' :
   /\ destroyed_by s' = destroyed_by s /\ log s' = log s.
 Proof.
   intros Ha H. destruct l as [k kd|k|k|k|k|k| |k]; try discriminate Ha;
-    cbn [step] in H; unfold jget in H; break H; inversion H; subst; clear H; sp; repeat split.
+    cbn [step] in H; unfold jget in H; break H; inversion H; subst; clear H; ssp; repeat split.
 Qed.
 
 (* every change of the value, the poison flag, the log and the destruction record is made by a
@@ -72,7 +72,7 @@ Lemma blocking_actor s l s' e :
              \/ e = EDestroyBegin (Blocking k) \/ e = EDestroyEnd (Blocking k)).
 Proof.
   intros H Hin Hn. destruct l as [k kd|k|k|k|k|k| |k];
-    cbn [step] in H; unfold jget in H; break H; inversion H; subst; clear H; sp;
+    cbn [step] in H; unfold jget in H; break H; inversion H; subst; clear H; ssp;
     try contradiction; cbn [In] in Hin; destruct Hin as [<-|Hin]; try contradiction;
     exists k; split; auto.
 Qed.
@@ -87,7 +87,7 @@ Lemma destruction_step s l s' :
                       running (jst j0) = false).
 Proof.
   intros I H Hd. destruct l as [k kd|k|k|k|k|k| |k];
-    cbn [step] in H; unfold jget in H; break H; inversion H; subst; clear H; sp;
+    cbn [step] in H; unfold jget in H; break H; inversion H; subst; clear H; ssp;
     try (exfalso; apply Hd; reflexivity).
   exists k, j. repeat split; try assumption.
   intros k0 j0 H0 Hc. destruct (running (jst j0)) eqn:Er; [|reflexivity].
@@ -103,7 +103,7 @@ Lemma cancel_frame s k s' :
        exists j0', nth_error (jobs s') k0 = Some j0' /\ jkind j0' = jkind j0
                    /\ jst j0' = jst j0 /\ jran j0' = jran j0.
 Proof.
-  intros H. cbn [step] in H; unfold jget in H; break H; inversion H; subst; clear H; sp;
+  intros H. cbn [step] in H; unfold jget in H; break H; inversion H; subst; clear H; ssp;
     repeat split; intros k0 j0 H0; pose proof (nth_some_lt _ _ _ H0) as Hlt;
     new_jobs; rewrite ?(eqb_lt_false _ _ Hlt);
     (destruct (Nat.eqb_spec k k0) as [->|Hne];
@@ -117,7 +117,7 @@ Lemma panic_poisons s k j s' :
   poisoned s' = true /\ nth_error (jobs s') k = Some (with_st j (JDone RPanic)).
 Proof.
   intros H Hj Hk. cbn [step] in H. unfold jget in H. rewrite Hj, Hk in H.
-  destruct (jst j); try discriminate. inversion H; subst; clear H. sp. split; [reflexivity|].
+  destruct (jst j); try discriminate. inversion H; subst; clear H. ssp. split; [reflexivity|].
   eapply nth_setn_same, Hj.
 Qed.
 
@@ -126,14 +126,14 @@ Lemma return_result s k j s' :
   poisoned s' = poisoned s /\ nth_error (jobs s') k = Some (with_st j (JDone ROk)).
 Proof.
   intros H Hj Hk. cbn [step] in H. unfold jget in H. rewrite Hj, Hk in H.
-  destruct (jst j); try discriminate. inversion H; subst; clear H. sp. split; [reflexivity|].
+  destruct (jst j); try discriminate. inversion H; subst; clear H. ssp. split; [reflexivity|].
   eapply nth_setn_same, Hj.
 Qed.
 
 Lemma poisoned_step s l s' : step s l = Some s' -> poisoned s = true -> poisoned s' = true.
 Proof.
   intros H Hp. destruct l as [k kd|k|k|k|k|k| |k];
-    cbn [step] in H; unfold jget in H; break H; inversion H; subst; clear H; sp; auto; congruence.
+    cbn [step] in H; unfold jget in H; break H; inversion H; subst; clear H; ssp; auto; congruence.
 Qed.
 
 Lemma poisoned_run tr : forall s s', run s tr = Some s' -> poisoned s = true -> poisoned s' = true.
@@ -162,7 +162,7 @@ Lemma deliver_reports s k s' :
   exists j r, nth_error (jobs s) k = Some j /\ jst j = JDone r /\ jaw j = AWaiting
               /\ nth_error (jobs s') k = Some (with_aw j ADelivered).
 Proof.
-  intros H. cbn [step] in H; unfold jget in H; break H; inversion H; subst; clear H; sp;
+  intros H. cbn [step] in H; unfold jget in H; break H; inversion H; subst; clear H; ssp;
     eexists; eexists; (split; [reflexivity|]); (split; [eassumption|]); (split; [assumption|]);
     eapply nth_setn_same; eassumption.
 Qed.
@@ -171,7 +171,7 @@ Qed.
 Lemma taken_step s l s' : Inv s -> step s l = Some s' -> val s = Taken -> val s' = Taken.
 Proof.
   intros I H Hv. destruct l as [k kd|k|k|k|k|k| |k];
-    cbn [step] in H; unfold jget in H; break H; inversion H; subst; clear H; sp; auto;
+    cbn [step] in H; unfold jget in H; break H; inversion H; subst; clear H; ssp; auto;
     try congruence.
   all: exfalso; match goal with Hj : nth_error (jobs _) _ = Some ?j, Hk : jkind ?j = KCreate _ |- _ =>
          pose proof (i_pre _ I _ _ Hj) as P; rewrite Hk in P end;
@@ -200,7 +200,7 @@ Lemma late_job_skips s l s' k j f :
 Proof.
   intros Hj Hk Hq Hv H. pose proof (nth_some_lt _ _ _ Hj) as Hlt.
   destruct l as [k0 kd|k0|k0|k0|k0|k0| |k0];
-    cbn [step] in H; unfold jget in H; break H; inversion H; subst; clear H; sp;
+    cbn [step] in H; unfold jget in H; break H; inversion H; subst; clear H; ssp;
     try (destruct (nth_nil_some _ _ Hj));
     new_jobs; rewrite ?(eqb_lt_false _ _ Hlt);
     try (destruct (Nat.eqb_spec k0 k) as [->|Hne]);
